@@ -482,6 +482,12 @@ class DiameterAVP(object):
             except KeyError as e:
                 avps.append(avp)
 
+            except RecursionError:
+                #: Grouped AVPs nested deeper than the interpreter can follow:
+                #: a parsing error like any other, not a runtime failure.
+                raise AVPParsingError("invalid bytes stream. The Grouped "\
+                                      "AVPs are nested too deeply")
+
         return avps
 
 
